@@ -111,14 +111,15 @@ def validate(ctx, tier, seed):
 
 def replay(ctx, v):
     script = v['replay']
-    out = ctx.native().call(script)
+    nat = ctx.native(tuple(f for f in script['features'] if f != 'HashSet')) if script.get('features') else ctx.native()
+    out = nat.call(script)
     probs = native_problems(out, script['steps'], script['n'])
     if probs: return 'reproduced', {'native_output': out, 'problems': probs[:5]}
     return 'not-reproduced', {'native_output': out}
 
 
 def key(v):
-    return v['kind'] + ':' + json.dumps(v['replay']['steps'], sort_keys=True)
+    return v['kind'] + ':' + json.dumps(v['replay']['steps'], sort_keys=True) + (':' + '+'.join(v['replay']['features']) if v['replay'].get('features') else '')
 
 
 ASSUMPTIONS = [
